@@ -412,13 +412,83 @@ func (g *Gen) genBankSend() {
 	g.do(M{"f": "banksend", "chain": c, "from": from, "to": to, "denom": d, "amount": amt})
 }
 
+// happy: an honest transfer relayed at once (recv + ack). back = send a held voucher home.
+func (g *Gen) happy(back bool) {
+	w := g.w
+	c := g.r.Intn(3)
+	ends := g.ends(c)
+	for try := 0; try < 6; try++ {
+		sender := g.localUser(c)
+		snap := w.Snapshot(c)
+		held := []string{}
+		for k, v := range snap.Bal {
+			n, d := splitKey(k)
+			if n == sender && v.IsPositive() && d != "stake" && strings.HasPrefix(d, "ibc/") == back {
+				held = append(held, d)
+			}
+		}
+		if len(held) == 0 {
+			c = g.r.Intn(3)
+			ends = g.ends(c)
+			continue
+		}
+		sortStrings(held)
+		denom := held[g.r.Intn(len(held))]
+		e := ends[g.r.Intn(len(ends))]
+		if back {
+			ch := w.chains[c]
+			d, err := ch.GetSimApp().TransferKeeper.GetDenomFromIBCDenom(ch.GetContext(), denom)
+			if err != nil || len(d.Trace) == 0 {
+				continue
+			}
+			found := false
+			for _, x := range ends {
+				if x.id == d.Trace[0].ChannelId {
+					e, found = x, true
+				}
+			}
+			if !found {
+				continue
+			}
+		}
+		if !hopFree(denom) {
+			continue
+		}
+		peer, _ := w.peerOf(e.l, c, e.id)
+		amt := get(snap.Bal, sender+"|"+denom)
+		if amt.GT(sdkmath.NewInt(5000)) {
+			amt = sdkmath.NewInt(int64(1 + g.r.Intn(5000)))
+		}
+		in := M{"f": "transfer", "chain": c, "port": "transfer", "chan": e.id, "denom": denom, "amount": amt.String(),
+			"sender": sender, "signer": sender, "tx": true, "receiver": fmt.Sprintf("%s%d", chainLetters[peer], 1+g.r.Intn(4)),
+			"memo": "", "alias": e.l.V1 && g.r.Chance(0.3), "encoding": "", "timeout": "far", "coreErr": ""}
+		res, _ := g.do(in).(M)
+		if res["r"] != "ok" {
+			return
+		}
+		seq := res["seq"]
+		if g.r.Chance(0.85) {
+			g.do(M{"f": "recv", "chain": c, "chan": e.id, "seq": seq, "elapsed": false, "coreErr": ""})
+			if g.r.Chance(0.8) {
+				g.do(M{"f": "ack", "chain": c, "chan": e.id, "seq": seq})
+			}
+		}
+		return
+	}
+}
+
 // History runs one history of about n ops on a fresh world.
 func (g *Gen) History(n int) {
 	g.do(g.w.ResetRequest())
+	for i := 0; i < 5; i++ {
+		g.happy(false)
+	}
 	for i := 0; i < n; i++ {
 		switch x := g.r.Intn(100); {
 		case x < 5:
 			g.genSendV2()
+		case x < 13:
+			g.happy(g.r.Chance(0.75))
 		case x < 36:
 			g.genTransfer()
 		case x < 60:
